@@ -514,3 +514,5 @@ CHECKS["C04"]["partial"] = [{"theorem": "exactly-once for the cleanups of the wh
 CHECKS["C10"]["lean_modules"] = CHECKS["C10"]["lean_modules"] + ["SycVerif.Props.C04Repairs"]
 CHECKS["C10"]["theorems"] += [RX + n for n in ["C10_start_marks_reset", "C10_start_marks_reset_in_propagation", "C10_nested_dfs_traverses_start", "C10_nested_propagation_schedules",
                                                 "C10_nested_dfs_skips_perm_start", "C10_nested_propagation_from_perm_runs_nothing", "C10_batch_nested_write_example", "C10_batch_nested_write_old"]]
+CHECKS["C04"]["classes"] = CHECKS["C04"]["classes"] + ["zombie-run"]
+CHECKS["C11"]["classes"] = CHECKS["C11"]["classes"] + ["zombie-run"]
